@@ -105,6 +105,7 @@ func c06Produce(j *c06Judge) {
 	c06ValueSets(j)
 	c06ConsN(j)
 	c06CapsuleEquals(j)
+	c06EmptyDynDuplicates(j)
 }
 
 // members of one element type, with the occasional DynamicVal / untyped null thrown in
@@ -1104,5 +1105,73 @@ func c06ValueSets(j *c06Judge) {
 				j.see("ValueSet.Values", e, c06Lit("ValueSet.Values", am...))
 			}
 		})
+	}
+}
+
+// c06EmptyDynDuplicates: sets whose members are the same known, empty collection of dynamic
+// element type (bare or nested in a structure), said twice, through every way a set is
+// built. Two such members are Equal, so the set must keep one of them.
+func c06EmptyDynDuplicates(j *c06Judge) {
+	empties := []cty.Value{
+		cty.ListValEmpty(cty.DynamicPseudoType), cty.MapValEmpty(cty.DynamicPseudoType), cty.SetValEmpty(cty.DynamicPseudoType),
+		cty.ListValEmpty(cty.List(cty.DynamicPseudoType)), cty.MapValEmpty(cty.Set(cty.DynamicPseudoType)),
+	}
+	var members []cty.Value
+	for _, e := range empties {
+		members = append(members, e,
+			cty.ObjectVal(map[string]cty.Value{"name": cty.StringVal("a"), "deps": e}),
+			cty.TupleVal([]cty.Value{e, cty.True}),
+			cty.ListVal([]cty.Value{cty.ObjectVal(map[string]cty.Value{"k": e})}))
+	}
+	for _, m := range members {
+		m := m
+		for n := 2; n <= 3; n++ {
+			ms := make([]cty.Value, n)
+			for i := range ms {
+				ms[i] = m
+			}
+			j.produce("SetVal/empty-dynamic-twice", c06Lit("SetVal", ms...), func() cty.Value { return cty.SetVal(ms) })
+			j.produce("SetValFromValueSet/empty-dynamic-twice", c06Lit("SetValFromValueSet", ms...), func() cty.Value {
+				s := cty.NewValueSet(m.Type())
+				for _, x := range ms {
+					s.Add(x)
+				}
+				return cty.SetValFromValueSet(s)
+			})
+			j.produce("Convert/list-to-set/empty-dynamic-twice", c06Lit("Convert", cty.ListVal(ms)), func() cty.Value {
+				v, err := convert.Convert(cty.ListVal(ms), cty.Set(m.Type()))
+				if err != nil {
+					return cty.NilVal
+				}
+				return v
+			})
+			j.produce("Convert/tuple-to-set/empty-dynamic-twice", c06Lit("Convert", cty.TupleVal(ms)), func() cty.Value {
+				v, err := convert.Convert(cty.TupleVal(ms), cty.Set(m.Type()))
+				if err != nil {
+					return cty.NilVal
+				}
+				return v
+			})
+			j.produce("Value.Add-set-union/empty-dynamic-twice", c06Lit("SetVal.Union", ms...), func() cty.Value {
+				a := cty.NewValueSet(m.Type())
+				a.Add(m)
+				b := cty.NewValueSet(m.Type())
+				b.Add(m)
+				return cty.SetValFromValueSet(a.Union(b))
+			})
+		}
+	}
+	for _, src := range []string{`[[],[]]`, `[[],[],[]]`, `[{"deps":[]},{"deps":[]}]`} {
+		src := src
+		for _, ty := range []cty.Type{cty.Set(cty.List(cty.DynamicPseudoType)), cty.Set(cty.Object(map[string]cty.Type{"deps": cty.List(cty.DynamicPseudoType)}))} {
+			ty := ty
+			j.produce("json.Unmarshal/empty-dynamic-twice", c06LitS("json.Unmarshal("+src+", "+ty.GoString()+")"), func() cty.Value {
+				v, err := ctyjson.Unmarshal([]byte(src), ty)
+				if err != nil {
+					return cty.NilVal
+				}
+				return v
+			})
+		}
 	}
 }
